@@ -53,3 +53,99 @@ Section C11Enc.
     | (_, Crash _) => [[2]]
     end.
 End C11Enc.
+
+(* ---------- C09 / C01 (no layers): writer call sequences ---------- *)
+From MLA Require Import Blocks Writer.
+From MLA.Concrete Require Sha256.
+From MLAGen Require Src.
+
+Section C09.
+  Variable k : consts.
+  Let FN := cFNMAX k.
+  Notation TS := Src.BT_FileStart. Notation TC := Src.BT_FileContent.
+  Notation TA := Src.BT_EndOfArchiveData. Notation TE := Src.BT_EndOfFile.
+
+  Definition ascii_name (code : N) : bytes :=
+    (* "f<n>" for other codes: decimal digits *)
+    let fix digits (fuel : nat) (n : N) (acc : bytes) : bytes :=
+      match fuel with O => acc | S f => if n <? 10 then (48 + n) :: acc else digits f (n / 10) ((48 + n mod 10) :: acc) end in
+    102 :: digits 20%nat code [].
+  Definition name_of (code : N) : bytes :=
+    match code with
+    | 0 => [97] | 1 => [98] | 2 => []
+    | 3 => repeat 120 (N.to_nat FN)
+    | 4 => repeat 121 (N.to_nat FN + 1)
+    | 5 => [99]
+    | 6 => [104; 195; 169; 228; 184; 150]
+    | n => ascii_name n
+    end.
+  Definition src_of (l salt : N) : bytes :=
+    map (fun i => (10 + N.of_nat i + salt) mod 256) (seq 0 (N.to_nat l)).
+
+  Definition decode_call (idx : N) (c : list N) : wop :=
+    match c with
+    | [0; n] => OStart (name_of n)
+    | [1; id; size; sl] => OAppend id size (src_of sl idx)
+    | [2; id] => OEnd id
+    | [3; n; size; sl] => OAdd (name_of n) size (src_of sl idx)
+    | [4] => OFlush
+    | _ => OFinalize
+    end.
+
+  Definition wstep' := wstep FN TS TC TA TE Sha256.sha256 (fun f => f).
+  Definition err_code (e : err) : N :=
+    match e with EState | EDup | ENameTooLong => 1 | _ => 3 end.
+  Definition res_row (r : res N) (v77 : bool) : list N :=
+    match r with
+    | Ok v => [0; if v77 then 77 else v]
+    | Err e => [err_code e; if v77 then 77 else 0]
+    | Crash _ => [2; if v77 then 77 else 0]
+    end.
+
+  Fixpoint run_calls (s : wstate) (idx : N) (calls : list (list N)) : wstate * list (list N) * bool :=
+    match calls with
+    | [] => (s, [], false)
+    | c :: r =>
+      match wstep' s (decode_call idx c) with
+      | (s', Crash x) => (s', [[2; 0]], true)
+      | (s', x) => let '(s2, rows, cr) := run_calls s' (idx + 1) r in (s2, res_row x false :: rows, cr)
+      end
+    end.
+
+  (* lexicographic order on names, insertion sort of footer entries *)
+  Fixpoint bytes_leb (a b : bytes) : bool :=
+    match a, b with
+    | [], _ => true
+    | _ :: _, [] => false
+    | x :: a', y :: b' => if x <? y then true else if y <? x then false else bytes_leb a' b'
+    end.
+  Fixpoint ins_entry (e : bytes * finfo) (l : footer) : footer :=
+    match l with
+    | [] => [e]
+    | h :: t => if bytes_leb (fst e) (fst h) then e :: l else h :: ins_entry e t
+    end.
+  Definition sort_footer (m : footer) : footer := fold_right ins_entry [] m.
+  Definition footer_row (e : bytes * finfo) : list N :=
+    [len (fst e)] ++ fst e ++ [len (fi_offsets (snd e))] ++ fi_offsets (snd e) ++ [fi_size (snd e); fi_eof (snd e)].
+
+  (* split a layer-less body as the harness does: stream up to the footer, footer rows *)
+  Definition observe_body (body : bytes) : list (list N) :=
+    if len body <? 4 then [[8; 1]] else
+    let flen := le_val (dropN (len body - 4) body) in
+    if len body <? flen + 4 then [[8; 1]] else
+    let fstart := len body - 4 - flen in
+    match parse_footer_map (sliceN fstart flen body) with
+    | Some m => (9 :: takeN fstart body) :: map footer_row (sort_footer m)
+    | None => [[8; 1]]
+    end.
+
+  Definition c09_run (calls : list (list N)) : list (list N) :=
+    let '(s, rows, crashed) := run_calls (w_init) 0 calls in
+    if crashed then rows ++ [[8]] else
+    if w_final s then rows ++ observe_body (w_out s) else
+    let s1 := fold_left (fun st id => fst (wstep' st (OEnd id))) [0; 1; 2; 3; 4; 5; 6; 7] s in
+    match wstep' s1 OFinalize with
+    | (s2, Ok _) => rows ++ observe_body (w_out s2)
+    | (s2, r) => rows ++ [res_row r true] ++ [[8]]
+    end.
+End C09.
